@@ -8,6 +8,18 @@ from rten_convert.graph import ConstantNode, Node
 from rten_convert.util import warn_once
 
 
+def int32_array(values) -> np.ndarray:
+    """
+    Convert an int or list of ints from an ONNX attribute to an int32 array.
+
+    ONNX integer attributes are 64-bit. Values outside the int32 range are
+    clamped, as for int64 initializers and as RTen's ONNX loader does, so that
+    eg. `INT64_MAX` used as "slice to the end" keeps its meaning.
+    """
+    i32 = np.iinfo(np.int32)
+    return np.array(values, dtype=np.int64).clip(i32.min, i32.max).astype(np.int32)
+
+
 class AttributeReader:
     """
     Utility for extracting attribute and input values from an ONNX operator.
@@ -181,7 +193,7 @@ class AttributeReader:
         match attr_type:
             case "int":
                 shape = []
-                data = np.array(attr_val).astype(np.int32)
+                data = int32_array(attr_val)
 
             case "float":
                 shape = []
@@ -189,7 +201,7 @@ class AttributeReader:
 
             case "ints":
                 shape = [len(attr_val)]
-                data = np.array([attr_val]).astype(np.int32)
+                data = int32_array(attr_val)
 
             case "floats":
                 shape = [len(attr_val)]
